@@ -240,21 +240,32 @@ PAIRS = {}
 
 
 def check_pair(run, S, name, spec, kw):
-    """two roots (lhs / rhs) must have equal summaries modulo unit rotations"""
+    """two compositions that must agree (modulo unit rotations).  Each side is compared with the closed form both must
+    have - [s R | d] products resp. nested applications built from the spec tables - so that a side which special-cases
+    some inputs is judged path by path on its own, not against every path of the other side."""
     kind, side = spec[1], spec[2]
-    tag = spec[0] + ':' + kind
-    PAIRS.setdefault(tag, {})[side] = name
-    if len(PAIRS[tag]) < 2:
-        return
     rot = Rot(kind)
-    l, rr = PAIRS[tag]['lhs'], PAIRS[tag]['rhs']
-    a = single_ret(run, S, l)
-    b = single_ret(run, S, rr)
-    if a is None or b is None:
+    sr = single_ret(run, S, name)
+    if sr is None:
         return
+    r, leaf = sr
     cv = Conv(S)
+    n = rot.dim
+    s1, R1, d1 = dec_sym(rot, 'a0')
+    s2, R2, d2 = dec_sym(rot, 'a1')
     with specs.hyps(*(rot.unit_hyps('a0.rot') + rot.unit_hyps('a1.rot'))):
-        cmp_struct(run, S, l + '=' + rr, cv.val(a[1]['v']), cv.val(b[1]['v']), 'K6 agreement of two compositions (unit rotations): %s' % spec[0], where=a[0].get('span'))
+        def mat(s_, R_, d_):
+            Rm = rot.matrix(R_)
+            return [[Rm[c][r_] * s_ for r_ in range(n)] + [ZERO] for c in range(n)] + [list(d_) + [ONE]]
+        if spec[0] == 'commute_concat':
+            exp = A.matmul(mat(s1, R1, d1), mat(s2, R2, d2))
+            rule = 'K6 agreement of two compositions (unit rotations): matrix of concat(a, b) = matrix(a) matrix(b) = [s1 R1 | d1][s2 R2 | d2]'
+        else:
+            p_ = sv('a2', n)
+            inner = A.vadd(rot.act(R2, A.vscale(p_, s2)), d2)
+            exp = A.vadd(rot.act(R1, A.vscale(inner, s1)), d1)
+            rule = 'K6 agreement of two compositions (unit rotations): concat(a, b)(p) = a(b(p))'
+        cmp_struct(run, S, name, cv.val(leaf['v']), exp, rule, where=r.get('span'))
 
 
 def run(tier):
